@@ -208,6 +208,7 @@ def run_shard(spec, ctx):
     r = random.Random(ctx.seed * 1000003 + 303 + spec['sub'])
     gen = D.Gen(r)
     gen.zoneless = 0.3
+    remembered = []
     for i in range(spec['n']):
         k = r.choice([1, 1, 1, 1, 2, 3, 0]) if i % 5 == 0 else 1
         ns = []
@@ -238,6 +239,20 @@ def run_shard(spec, ctx):
             report(ctx, ns, seed, final_newline, charset, single, sym, detail)
         elif i == 0:
             ctx.sample({'document': art['text'][:600], 'charset': charset, 'single': single})
+        if not sym and len(remembered) < 120:
+            remembered.append((ns, seed, final_newline, charset, single))
+    # history independence: the documents read first are read again, in reverse order, after everything else this
+    # process has parsed - whatever the reader remembers between calls must not change what a document means
+    for ns, seed, final_newline, charset, single in reversed(remembered):
+        sym, detail, art = judge_doc(ns, seed, None, final_newline, charset, single)
+        ctx.count('documents re-read at the end of the shard')
+        if sym:
+            ctx.violation({'part': 'history', 'format': 'zinc', 'position': 'document', 'kind': 'grid', 'symptom': 'reading-depends-on-history',
+                           'features': []}, 'a document that was read correctly at the start of the process now gives %s: %s | text %r' % (
+                               sym, detail, art['text'][:300]),
+                          {'ns': [D.enc(g) for g in ns], 'seed': seed, 'script': None, 'final_newline': final_newline, 'charset': charset,
+                           'single': single})
+            break
 
 
 def replay(case, ctx):
